@@ -537,7 +537,8 @@ impl RxH {
             return RecvOut::Unsupported;
         }
         let tok = hist::call(self.h, self.stream, k.op(), 0);
-        hooks::op_begin(limit());
+        // blocking entry points may legitimately spin; only non-blocking calls are bounded
+        hooks::op_begin(if k.blocking() { 0 } else { limit() });
         vh::take_recv_attempt();
         let nh = self.nh.clone();
         let fut = self.is_fut();
